@@ -19,6 +19,7 @@ import itertools
 import signal
 import sys
 import threading
+import time as _time
 import types
 from typing import Any, Dict, List, Optional, Tuple
 
@@ -27,6 +28,7 @@ _RealPool = _cf.ThreadPoolExecutor
 _builtin_max = max
 
 tls = threading.local()
+SERIAL = itertools.count(1)  # execution serials are global and monotonic (tokens of different executions never collide)
 
 
 class HarnessError(BaseException):
@@ -82,6 +84,32 @@ class Tok:
 
     def __reduce__(self):
         return (Tok, (self.label, self.serial, self.path))
+
+
+def canon_trace(trace) -> list:
+    """Trace with execution serials replaced by their rank of first appearance (for comparing two runs)."""
+    rank: Dict[int, int] = {}
+
+    def r(s):
+        if s not in rank:
+            rank[s] = len(rank) + 1
+        return rank[s]
+
+    def conv(v):
+        if isinstance(v, Tok):
+            return f"<{v.label}#{r(v.serial)}{list(v.path)}>"
+        if isinstance(v, (list, tuple)):
+            return [conv(x) for x in v]
+        if isinstance(v, dict):
+            return {str(k): conv(x) for k, x in v.items()}
+        return v if v is None or isinstance(v, (bool, int, float, str)) else repr(v)
+
+    out = []
+    for e in trace:
+        if e[0] in ("enter", "exit"):
+            e = e[:2] + (r(e[2]),) + e[3:]
+        out.append(conv(e))
+    return out
 
 
 def jsonable(v: Any) -> Any:
@@ -188,8 +216,7 @@ class Controller:
         k = id(results)
         s = self.serials.get(k)
         if s is None:
-            self.cur_serial += 1
-            s = self.cur_serial
+            s = self.cur_serial = next(SERIAL)
             self.serials[k] = s
             self.keepalive.append(results)
         return s
@@ -242,9 +269,8 @@ class Controller:
                 rec.entered.wait(0.0005)
 
     def complete(self, recs: List[TaskRec]) -> None:
-        for r in recs:
+        for r in recs:  # one after the other: the order of the exit events is part of the trace
             r.gate.set()
-        for r in recs:
             r.finished.wait()
         futs = [r.future for r in recs if r.future is not None]
         if futs:
@@ -429,12 +455,18 @@ async def hooked_asyncio_wait(fs, *, timeout=None, return_when=_real_asyncio.ALL
     else:
         chosen = _pick_completion(c, "a", return_when, recs)
     # the asyncio side needs loop turns to see the pool futures
-    for _ in range(1000):
-        if all(r.atask.done() for r in chosen):
-            break
+    deadline = None
+    turns = 0
+    while not all(r.atask.done() for r in chosen):
         await _real_asyncio.sleep(0)
-    else:
-        raise HarnessError("completed async-thread task never became done")
+        turns += 1
+        if turns > 20:
+            # the pool thread still has to run the future's callbacks (call_soon_threadsafe): give it the GIL
+            _time.sleep(0.00005)
+            if deadline is None:
+                deadline = _time.monotonic() + 10
+            elif _time.monotonic() > deadline:
+                raise HarnessError("completed async-thread task never became done")
     done, not_done = await _real_asyncio.wait(fs, timeout=timeout, return_when=return_when)
     c.ev("done", "a", _ids(sorted((c.by_atask[f] for f in done if f in c.by_atask), key=lambda r: (str(r.id), r.n))))
     if {c.by_atask[f].n for f in done if f in c.by_atask} != {r.n for r in chosen}:
